@@ -70,6 +70,7 @@ type Profile struct {
 	HashPool            int
 	EqualDatesPct       int
 	RemapAny            bool // remap to prerequisite kinds even if they have no weight
+	PopulatedPct        int  // percentage of configurations whose genesis already holds >100 classes / projects / issuers / creators
 	VestingPct          int  // percentage of configurations in which user account 3 is a vesting account with locked coins
 	HostilePct          int  // percentage of genesis draws allowed to be feature-hostile (fee > funds, empty allowlist)
 	Hashers             []HasherSpec
